@@ -31,6 +31,10 @@ checks = {
    'Two runtime monitors through api.Entry on a minimal chain. (1) Exact sequential pacing model on generated nanosecond arrival histories (pass = max(now, last+ceil(batch/threshold*interval)); reject iff that exceeds the queueing limit or batch > threshold), comparing every decision and requested sleep. (2) Cooperative scheduler with core/flow/tc_throttling.go compiled against the shimmed atomics: 2-3 callers x 1-2 calls and a clock-tick worker interleaved at every atomic access of DoCheck (random walk, PCT d<=3, bounded DFS); on the set of admitted (arrival, requested sleep) pairs the sorted pass times must be spaced by the later request\'s cost, every sleep within the limit, and each rejection justified by a value the shared timestamp took during that call (recorded by the shim).',
    'Sleeps are recorded through the virtual clock, not slept; interleavings sampled / bounded (<=3 callers x 2 calls); Go atomics assumed sequentially consistent.',
    'runtime reference-model monitor + cooperative-scheduler interleaving monitor over build-time-shimmed atomics', 'DESIGN.md §3 C10'),
+ 'C12': ('exploration',
+   'Cooperative-scheduler monitor: circuit_breaker.go (and the leap array it spins on) compiled against the shimmed atomics; 2-3 real goroutines performing Entry, Entry+Exit(ok/err) and completions of pre-existing entries, plus clock ticks of 1 ms / 0.5 / 1- / 1 / 1.5 retry timeouts, are interleaved at every atomic access around the trip, double-trip, timeout-expiry, probe-success, probe-failure and re-open transitions (random walk, PCT d<=3, bounded DFS). The oracle runs on the recorded total order of state loads / CAS (from the shim), listener callbacks and API call/return events: state changes only by legal CAS; the listener multiset equals the performed transitions with the same caller, previous state and program order; no Open->HalfOpen earlier than the opening call\'s begin + retry timeout; every admission justified by the state its caller read (Closed, its own Open->HalfOpen CAS, or HalfOpen with a probe number) and no rejection after reading Closed. Second engine: 24 goroutines with a ticking virtual clock under the race detector, listener multiset must be orderable into a path from Closed.',
+   'One breaker per resource in this engine; interleavings sampled / bounded (<=3 workers); the opening instant is taken as the begin of the opening call (earliest possible), so a caller pre-empted inside the transition is not mis-reported; Go atomics assumed sequentially consistent.',
+   'cooperative-scheduler interleaving monitor over build-time-shimmed atomics with a trace (legal-path / exclusivity / timing) oracle + race-detector stress', 'DESIGN.md §3 C12'),
  'C13': ('exploration',
    'Model-based monitor over all six rule modules: generated sequences of LoadRules / LoadRulesOfResource (LoadRuleOfResource for outlier) / ClearRules / ClearRulesOfResource / identical reload with freshly allocated equal objects, lists mixing binding valid rules (unique id + probe signature), inert valid rules, every field-wise invalidity class of the module and nil elements. After every step the getters (ids, order within a resource) and probe traffic (admissions until the first block and the triggered rule: frozen-window requests for flow, nested entries for isolation / hotspot / system, error completions for breakers, failing callee completions until FilterNodes reports the node for outlier) on the touched and on another resource are compared with the model = valid rules of the latest load per resource.',
    'Validity is the monitor\'s own transcription of each module\'s documented check; probes observe the binding (minimum-K) rule and the getters the whole list; generated rules are semantically unique (the managers re-use the controller and the old rule object of a rule equal in every field but ID, which is not treated as a violation); unsupported-enum rules accepted by the module\'s own check are not generated.',
